@@ -13,7 +13,8 @@
   Every theorem below is for ALL configurations, clocks, tokens, bit lists, protected-prefix lists, names and metric
   descriptions of the model `SH.Model.Access` (which `bin/check C30` ties to /repo by differential correspondence).
 
-    accept_iff, accept_window, tampered_rejected, parse_ok_only_if      acceptance
+    accept_iff, accept_window, tampered_rejected, parse_ok_only_if,
+    long_expired_rejected, expOkWrap_agrees, expOkWrap_accepts_long_expired   acceptance (times are unbounded Int)
     parseKeys_sound, parseKeys_complete, accept_signed_by_named_key,
     wrong_key_rejected                                                   key table: kid ↦ its own key
     grant_traced, grants_only_app_bits, grants_nothing, admin_traced    only the application's bits are granted
@@ -59,7 +60,7 @@ theorem gen_err_bits : C30.errMalformed = 1 ∧ C30.errUnverifiable = 2 ∧ C30.
     C30.errIssuedAt = 32 ∧ C30.errNotValidYet = 128 ∧ C30.errClaimsInvalid = 512 := by decide
 
 /-- the property's acceptance condition -/
-def Valid (cfg : Cfg) (now : Nat) (t : Token) : Prop :=
+def Valid (cfg : Cfg) (now : Int) (t : Token) : Prop :=
   t.alg = .str C30.algEdDSA ∧ t.kind = .str C30.kindToken ∧
   (∃ kid key, t.kid = .str kid ∧ tableGet cfg.keys kid = some key ∧ key ∈ t.sigValid) ∧
   t.iss = C30.issuer ∧ t.user ≠ [] ∧
@@ -86,7 +87,7 @@ theorem kidKey_some (cfg : Cfg) (a : HV) (key : Key) :
     kidKey cfg a = some key ↔ ∃ kid, a = .str kid ∧ tableGet cfg.keys kid = some key := by
   cases a <;> simp [kidKey]
 
-theorem claimsMask_zero (now exp : Nat) (t : Token) :
+theorem claimsMask_zero (now exp : Int) (t : Token) :
     claimsMask now exp t = 0 ↔ expOk now exp = true ∧ iatOk now t.iat = true ∧ nbfOk now t.nbf = true ∧ issOk t = true ∧ userOk t = true := by
   unfold claimsMask
   have h1 : C30.errExpired ≠ 0 := by decide
@@ -97,7 +98,7 @@ theorem claimsMask_zero (now exp : Nat) (t : Token) :
     by_cases d : issOk t = true <;> by_cases e : userOk t = true <;> simp [a, b, c, d, e, h1, h2, h3, h4]
 
 
-theorem claimsVerdict_accept (now : Nat) (t : Token) :
+theorem claimsVerdict_accept (now : Int) (t : Token) :
     claimsVerdict now t = .accept ↔
       ∃ e, t.exp = some e ∧ expOk now e = true ∧ iatOk now t.iat = true ∧ nbfOk now t.nbf = true ∧ issOk t = true ∧ userOk t = true := by
   unfold claimsVerdict
@@ -110,23 +111,23 @@ theorem claimsVerdict_accept (now : Nat) (t : Token) :
     · simp only [h, if_false, reduceCtorEq, false_iff]
       exact fun hh => h ((claimsMask_zero now e t).mpr hh)
 
-theorem expOk_iff (now e : Nat) : expOk now e = true ↔ now < truncSec e + C30.timeWindowMs := decide_eq_true_iff
+theorem expOk_iff (now e : Int) : expOk now e = true ↔ now < truncSec e + C30.timeWindowMs := decide_eq_true_iff
 
-theorem iatOk_iff (now : Nat) (o : Option Nat) : iatOk now o = true ↔ ∃ i, o = some i ∧ truncSec i ≤ now + C30.timeWindowMs := by
+theorem iatOk_iff (now : Int) (o : Option Int) : iatOk now o = true ↔ ∃ i, o = some i ∧ truncSec i ≤ now + C30.timeWindowMs := by
   cases o with
   | none => simp [iatOk]
   | some v =>
     have : iatOk now (some v) = true ↔ truncSec v ≤ now + C30.timeWindowMs := decide_eq_true_iff
     simp [this]
 
-theorem nbfOk_iff (now : Nat) (o : Option Nat) : nbfOk now o = true ↔ ∀ n, o = some n → truncSec n ≤ now := by
+theorem nbfOk_iff (now : Int) (o : Option Int) : nbfOk now o = true ↔ ∀ n, o = some n → truncSec n ≤ now := by
   cases o with
   | none => simp [nbfOk]
   | some v =>
     have : nbfOk now (some v) = true ↔ truncSec v ≤ now := decide_eq_true_iff
     simp [this]
 
-theorem sigVerdict_accept (now : Nat) (t : Token) (k : Key) :
+theorem sigVerdict_accept (now : Int) (t : Token) (k : Key) :
     sigVerdict now t k = .accept ↔ k ∈ t.sigValid ∧ claimsVerdict now t = .accept := by
   unfold sigVerdict
   by_cases hs : t.sigValid.contains k = true
@@ -135,7 +136,7 @@ theorem sigVerdict_accept (now : Nat) (t : Token) (k : Key) :
   · have : ¬ k ∈ t.sigValid := by simpa using hs
     simp [this]
 
-theorem keyVerdict_accept (cfg : Cfg) (now : Nat) (t : Token) :
+theorem keyVerdict_accept (cfg : Cfg) (now : Int) (t : Token) :
     keyVerdict cfg now t = .accept ↔
       kindOk t.kind = true ∧ ∃ k, kidKey cfg t.kid = some k ∧ k ∈ t.sigValid ∧ claimsVerdict now t = .accept := by
   unfold keyVerdict
@@ -146,7 +147,7 @@ theorem keyVerdict_accept (cfg : Cfg) (now : Nat) (t : Token) :
     | some k => simp [sigVerdict_accept]
   · simp [hk]
 
-theorem verify_accept (cfg : Cfg) (now : Nat) (t : Token) :
+theorem verify_accept (cfg : Cfg) (now : Int) (t : Token) :
     verify cfg now t = .accept ↔ algCheck t.alg = none ∧ keyVerdict cfg now t = .accept := by
   unfold verify
   cases algCheck t.alg <;> simp
@@ -154,7 +155,7 @@ theorem verify_accept (cfg : Cfg) (now : Nat) (t : Token) :
 /-- **Acceptance, exact.** A decoded token is accepted iff it is an EdDSA token of kind "token" whose kid names an
     entry of the key table and whose signature verifies under THE key bytes stored in that entry, issued by vkuth, for a non-empty user, with
     now − 5 s < exp, iat ≤ now + 5 s and (if present) nbf ≤ now. -/
-theorem accept_iff (cfg : Cfg) (now : Nat) (t : Token) : verify cfg now t = .accept ↔ Valid cfg now t := by
+theorem accept_iff (cfg : Cfg) (now : Int) (t : Token) : verify cfg now t = .accept ↔ Valid cfg now t := by
   rw [verify_accept, keyVerdict_accept, algCheck_none, kindOk_iff, claimsVerdict_accept]
   simp only [kidKey_some, iatOk_iff, nbfOk_iff, Valid]
   constructor
@@ -255,7 +256,7 @@ theorem parseKeys_complete (fp : Key → Str) (ks : List Key) (k : Key) (hk : k 
 /-- **"Signed by a configured key whose id it names."** With the key table built by ParseVkuthKeys from the listed
     keys `ks`, an accepted token names (by fingerprint) one of the listed keys, and its signature verifies under that
     very key — not merely under some configured key. -/
-theorem accept_signed_by_named_key (fp : Key → Str) (ks : List Key) (cfg : Cfg) (now : Nat) (t : Token)
+theorem accept_signed_by_named_key (fp : Key → Str) (ks : List Key) (cfg : Cfg) (now : Int) (t : Token)
     (hc : cfg.keys = parseKeys fp ks) (h : verify cfg now t = .accept) :
     ∃ key ∈ ks, t.kid = .str (fp key) ∧ key ∈ t.sigValid := by
   obtain ⟨_, _, ⟨kid, key, h1, h2, h3⟩, _⟩ := (accept_iff cfg now t).mp h
@@ -264,7 +265,7 @@ theorem accept_signed_by_named_key (fp : Key → Str) (ks : List Key) (cfg : Cfg
   exact ⟨key, hm, by rw [hf]; exact h1, h3⟩
 
 /-- … and a signature that verifies only under OTHER keys (configured or not) than the one the kid names is rejected -/
-theorem wrong_key_rejected (fp : Key → Str) (ks : List Key) (cfg : Cfg) (now : Nat) (t : Token)
+theorem wrong_key_rejected (fp : Key → Str) (ks : List Key) (cfg : Cfg) (now : Int) (t : Token)
     (hc : cfg.keys = parseKeys fp ks) (h : ∀ key ∈ ks, t.kid = .str (fp key) → key ∉ t.sigValid) :
     verify cfg now t ≠ .accept := by
   intro hv
@@ -714,7 +715,7 @@ theorem edit_only_through_bits (cfg : Cfg) (t : Token) (c : Bool) (o n : Meta)
 
 /-- **Nothing is granted without an accepted token.** Outside local / insecure mode parseAccessToken succeeds only on
     a decodable token that satisfies `Valid`, and the result is exactly `grants`. -/
-theorem parse_ok_only_if (cfg : Cfg) (now : Nat) (inp : Input) (ai : AI)
+theorem parse_ok_only_if (cfg : Cfg) (now : Int) (inp : Input) (ai : AI)
     (hl : cfg.localMode = false) (hi : cfg.insecure = false) (h : parseAccessToken cfg now inp = .ok ai) :
     ∃ t, inp = .tok t ∧ Valid cfg now t ∧ ai = grants cfg t := by
   unfold parseAccessToken at h
@@ -736,7 +737,7 @@ theorem parse_ok_only_if (cfg : Cfg) (now : Nat) (inp : Input) (ai : AI)
     application prefix; whatever `ai` may view is covered by a view bit (and `app:admin` for remote-config metrics);
     and if the token has no `app:admin` bit, every edit that is not refused outright has edit bits for both names,
     touches no remote-config metric, and, if accepted, leaves the frozen attributes unchanged. -/
-theorem c30_end_to_end (cfg : Cfg) (now : Nat) (inp : Input) (ai : AI)
+theorem c30_end_to_end (cfg : Cfg) (now : Int) (inp : Input) (ai : AI)
     (hl : cfg.localMode = false) (hi : cfg.insecure = false) (h : parseAccessToken cfg now inp = .ok ai) :
     ∃ t, inp = .tok t ∧ Valid cfg now t ∧
       (∀ g, Granted ai g ↔ g ≠ .nothing ∧ ∃ s, appPrefix cfg.app ++ s ∈ t.bits ∧ classify s = g) ∧
@@ -762,12 +763,12 @@ theorem c30_end_to_end (cfg : Cfg) (now : Nat) (inp : Input) (ai : AI)
 
 /-! ## window in raw milliseconds, and the rejection of every one-aspect tampering -/
 
-theorem truncSec_le (x : Nat) : truncSec x ≤ x ∧ x < truncSec x + 1000 := by
+theorem truncSec_le (x : Int) : truncSec x ≤ x ∧ x < truncSec x + 1000 := by
   unfold truncSec; omega
 
 /-- an accepted token is inside its validity window: not later than 5 s after `exp`; `iat` / `nbf` are NumericDates
     (whole seconds), so they are at most 5 s (+ the sub-second fraction golang-jwt drops) resp. the fraction ahead -/
-theorem accept_window (cfg : Cfg) (now : Nat) (t : Token) (h : verify cfg now t = .accept) :
+theorem accept_window (cfg : Cfg) (now : Int) (t : Token) (h : verify cfg now t = .accept) :
     ∃ e i, t.exp = some e ∧ t.iat = some i ∧ now < e + 5000 ∧ i < now + 6000 ∧ ∀ n, t.nbf = some n → n < now + 1000 := by
   obtain ⟨_, _, _, _, _, ⟨e, he, h1⟩, ⟨i, hi, h2⟩, h3⟩ := (accept_iff cfg now t).mp h
   refine ⟨e, i, he, hi, ?_, ?_, ?_⟩
@@ -775,10 +776,59 @@ theorem accept_window (cfg : Cfg) (now : Nat) (t : Token) (h : verify cfg now t 
   · have := truncSec_le i; rw [gen_window] at h2; omega
   · intro n hn; have := truncSec_le n; have := h3 n hn; omega
 
+/-! ### the expiry decision must be a comparison on unbounded time, not on a wrapping Duration
+
+  `expOk` compares instants (time.Time.Before). The variant below is the seeded change C30-r5-2: the decision is the
+  sign of `time.Duration(expireAtNow.Unix() - exp.Unix()) * time.Second`, an int64 number of nanoseconds that wraps
+  when the token expired more than 2^63 ns (≈ 292 years) ago. It agrees with `expOk` inside ±292 years and ACCEPTS
+  tokens that expired between ≈ 292 and ≈ 584 years ago. -/
+
+/-- two's-complement int64 -/
+def wrap64 (x : Int) : Int := (x + 9223372036854775808) % 18446744073709551616 - 9223372036854775808
+
+/-- variant (NOT the code): `delta := Duration(expireAtNow.Unix()-exp.Unix()) * Second; expired iff delta >= 0` -/
+def expOkWrap (now exp : Int) : Bool :=
+  decide (wrap64 (((now - window) / 1000 - exp / 1000) * 1000000000) < 0)
+
+theorem wrap64_id (x : Int) (h : -9223372036854775808 ≤ x ∧ x < 9223372036854775808) : wrap64 x = x := by
+  unfold wrap64
+  rw [Int.emod_eq_of_lt (by omega) (by omega)]
+  omega
+
+/-- inside ±9.2e9 s (≈ 292 years) the variant is the same decision … -/
+theorem expOkWrap_agrees (now exp : Int)
+    (h : -9223372036 < (now - window) / 1000 - exp / 1000 ∧ (now - window) / 1000 - exp / 1000 < 9223372036) :
+    expOkWrap now exp = expOk now exp := by
+  unfold expOkWrap expOk truncSec
+  have hw : window = 5000 := by decide
+  rw [hw] at h ⊢
+  rw [wrap64_id _ (by omega)]
+  by_cases hlt : now < exp / 1000 * 1000 + 5000
+  · have : ((now - 5000) / 1000 - exp / 1000) * 1000000000 < 0 := by omega
+    simp [hlt, this]
+  · have : ¬ ((now - 5000) / 1000 - exp / 1000) * 1000000000 < 0 := by omega
+    simp [hlt, this]
+
+/-- … but a token that expired 370 years ago (exp = −10 000 000 000 s, now = 1 700 000 000 s) is expired for the code
+    and NOT expired for the variant: `expOk` cannot be replaced by wrapping Duration arithmetic. -/
+theorem expOkWrap_accepts_long_expired :
+    expOk 1700000000000 (-10000000000000) = false ∧ expOkWrap 1700000000000 (-10000000000000) = true ∧
+    expOk 1700000000000 (-12000000000000) = false ∧ expOkWrap 1700000000000 (-12000000000000) = true := by decide
+
+/-- the model rejects every expired token, however long ago it expired (no lower bound on `exp`) -/
+theorem long_expired_rejected (cfg : Cfg) (now : Int) (t : Token) (e : Int) (he : t.exp = some e) (h : e + 5000 ≤ now) :
+    verify cfg now t ≠ .accept := by
+  intro hv
+  obtain ⟨_, _, _, _, _, ⟨e', he', h1⟩, _⟩ := (accept_iff cfg now t).mp hv
+  rw [he] at he'; cases he'
+  have := truncSec_le e
+  rw [gen_window] at h1
+  omega
+
 /-- **Every token outside the property's acceptance set is rejected** (wrong or missing alg, wrong kind header, kid
     missing / not a string / naming no configured key, signature not valid under the named key, foreign issuer, no
     user, no or passed expiry, issue time missing or in the future, not-before in the future). -/
-theorem tampered_rejected (cfg : Cfg) (now : Nat) (t : Token)
+theorem tampered_rejected (cfg : Cfg) (now : Int) (t : Token)
     (h : t.alg ≠ .str C30.algEdDSA ∨ t.kind ≠ .str C30.kindToken ∨
          (∀ k, t.kid = .str k → tableGet cfg.keys k = none) ∨
          (∀ k key, t.kid = .str k → tableGet cfg.keys k = some key → key ∉ t.sigValid) ∨
@@ -846,6 +896,15 @@ example : verify cfg0 950000 { tok0 with iss := lit "vkuth2" } = .err 512 := by 
 example : verify cfg0 950000 { tok0 with user := [] } = .err 512 := by decide
 example : verify cfg0 950000 { tok0 with iat := none } = .err 32 := by decide
 example : verify cfg0 950000 { tok0 with exp := none } = .panic := by decide
+-- expiry is decided on unbounded time: 1970, before 1970, ±292 / ±584 years, the int64-second extremes
+example : verify cfg0 950000 { tok0 with exp := some 0 } = .err 16 ∧
+          verify cfg0 950000 { tok0 with exp := some (-1) } = .err 16 ∧
+          verify cfg0 1700000000000 { tok0 with exp := some (-10000000000000) } = .err 16 ∧
+          verify cfg0 1700000000000 { tok0 with exp := some (1700000000000 - 9223372036000) } = .err 16 ∧
+          verify cfg0 1700000000000 { tok0 with exp := some (1700000000000 - 18446744073000) } = .err 16 ∧
+          verify cfg0 1700000000000 { tok0 with exp := some (-9223372036854775808000) } = .err 16 ∧
+          verify cfg0 1700000000000 { tok0 with exp := some 253402300799000 } = .accept ∧
+          verify cfg0 1700000000000 { tok0 with exp := some 9007199254740992000 } = .accept := by decide
 example : verify cfg0 2000000 { tok0 with iss := [], iat := none } = .err (16 + 32 + 512) := by decide
 -- the hypotheses of c30_end_to_end are satisfiable, local mode ignores the token
 example : parseAccessToken cfg0 950000 (.tok tok0) = .ok (grants cfg0 tok0) := by decide
